@@ -85,8 +85,9 @@ Section Pair.
     merge_all dto [] [p; s] = Ok d -> lookup f p = None ->
     lookup f d = match lookup f dto with Some _ => lookup f s | None => None end.
   Proof.
-    intros p s d f H Hp. cbn in H. rewrite !merge_is_merge_entries in H.
+    intros p s d f H Hp. cbn [merge_all] in H. rewrite merge_is_merge_entries in H.
     destruct (merge_entries merge_val (fun f => lookup f dto) [] p) as [x|e] eqn:E1; [|discriminate].
+    rewrite merge_is_merge_entries in H.
     destruct (merge_entries merge_val (fun f => lookup f dto) x s) as [y|e] eqn:E2; [|discriminate].
     injection H as H. subst y.
     pose proof (merge_entries_lookup merge_val _ _ _ _ E1 f) as L1. rewrite Hp in L1. cbn in L1.
